@@ -33,7 +33,7 @@ from odl.util import numerics as NU
 from mc.ref import resize as R
 
 PROPERTY = 'C16'
-BUDGET = {'quick': 600, 'thorough': 3600}
+BUDGET = {'quick': 1500, 'thorough': 3600}
 
 MODES = list(R.MODES)
 DIRS = ['forward', 'adjoint']
